@@ -103,13 +103,44 @@ def builder_check(ctx, impl, rots, stats=None, cases=None, extra=None):
     return len(rots)
 
 
+def run_check(ctx, impl, rots, extra=None):
+    """2..4 consecutive rotation calls on one qubit WITHOUT separator: oracle on the whole emitted run
+    (flush succeeds, every instruction encodable, per maximal same-axis group the steps add up to the
+    sum of the requested angles); tie: the run is the concatenation of one instruction per step.
+    Returns True if the run is exactly that concatenation."""
+    tol = impl.default_tol
+    rj = [ac.rot_json(r) for r in rots]
+    impl.last_pending = None
+    run = impl.emit(rots, separate=False)
+    o = ac.run_oracle(rots, run, tol)
+    got = None if run is None else [list(x) for x in run]
+    if not o["ok"]:
+        d = dict(via="builder-run", rots=rj, tol=float(tol).hex(), got=got, why=o["why"],
+                 pending_before_flush=str(impl.last_pending) if run is None else None)
+        d.update(extra or {})
+        ctx.violation("consecutive rotations: " + o["why"][:200], d)
+    ctx.note_case((json.dumps(rj, sort_keys=True), "builder-run"), nontrivial=True)
+    want = []
+    for r in rots:
+        if r.get("angle") is not None:
+            w, _ = impl.spec(r["angle"], tol)
+            if w is None:
+                return False
+            want += [["rot_" + r["axis"].lower(), n, d] for n, d in w]
+        else:
+            want.append(["rot_" + r["axis"].lower(), r.get("n", 0), r.get("d", 0)])
+    return got == want
+
+
 def run_corpus(ctx, impl):
     """fixed defects must stay fixed; recorded findings are replayed through the oracle"""
     n = 0
     for p in sorted(glob.glob(os.path.join(CORPUS, "*.json"))):
         for rec in json.load(open(p))["cases"]:
             n += 1
-            if rec.get("via") == "builder":
+            if rec.get("via") == "builder-run":
+                run_check(ctx, impl, rots_of_record(rec), extra=dict(corpus=os.path.basename(p)))
+            elif rec.get("via") == "builder":
                 builder_check(ctx, impl, rots_of_record(rec), extra=dict(corpus=os.path.basename(p)))
             else:
                 check_one(ctx, impl, float.fromhex(rec["angle"]), float.fromhex(rec["tol"]), extra=dict(corpus=os.path.basename(p)))
@@ -122,7 +153,7 @@ def run(ctx):
                 "m*pi/2^k and +-1..3 ulp; rest next to 255/2^k, 127/2^k, 128/2^k (d-window edges); within tol of 0 and of 2pi "
                 "in radians and in half turns, both signs) + random (uniform [0,2pi), [-2pi,0), 2pi<|a|<100, 1e-12<|a|<1, "
                 "1e2<|a|<1e6, 1e6<|a|<1e18), tol in {1e-1..1e-9} or log-uniform; plus rot_X/Y/Z(angle=) on a real connection "
-                "(default tol; three routes: angle only, angle together with non-default n and d - which the documentation says are ignored -, n and d only - emitted verbatim; a Hadamard separates the calls). Every case: implementation vs Coq model as exact (n,d) lists, and the oracle "
+                "(default tol; three routes: angle only, angle together with non-default n and d - which the documentation says are ignored -, n and d only - emitted verbatim; a Hadamard separates the calls) and as runs of 2..4 consecutive calls without separator (whole-run oracle per maximal same-axis group). Every case: implementation vs Coq model as exact (n,d) lists, and the oracle "
                 "(1<=n<=255, 0<=d<=255, circle distance |sum n*pi/2^d - angle| <= tol + 2^-49 in 80-digit rationals). "
                 "non-trivial = at least one rotation step emitted; distinct = distinct (angle bits, tol bits, route)")
     impl = ac.Impl(ctx.repo)
@@ -205,6 +236,19 @@ def run(ctx):
         b_rot += builder_check(ctx, impl, rots, stats=stats, cases=cases)
         for r in rots:
             b_kinds["n_d_only" if r.get("angle") is None else "angle_with_n_d" if ("n" in r or "d" in r) else "angle_only"] += 1
+
+    # ---- consecutive rotation calls without separator (whole-run oracle)
+    runs = [] if stats.get("timeouts", 0) >= 3 else ac.gen_builder_runs(ctx.rng, 400 if quick else 8000, impl.default_tol)
+    run_diff = []
+    for rots in runs:
+        if not run_check(ctx, impl, rots):
+            run_diff.append(rots)
+    ctx.coverage["builder_runs"] = dict(runs=len(runs), calls=sum(len(r) for r in runs),
+                                        same_axis_pairs=sum(1 for r in runs for x, y in zip(r, r[1:]) if x["axis"] == y["axis"]),
+                                        not_one_instruction_per_step=len(run_diff))
+    if run_diff and not [v for v in ctx.violations if v["key"] is None]:
+        ctx.broken.append(f"builder run is not the concatenation of one instruction per step: {len(run_diff)} runs, first: "
+                          f"{json.dumps([ac.rot_json(r) for r in run_diff[0]])[:400]}")
 
     # ---- correspondence with the Coq model (vm_compute inside coqc)
     n_coq = len(cases) if quick else min(len(cases), 80000)
@@ -326,12 +370,20 @@ def search(ctx, impl, mism, cases):
         builder_check(ctx, impl, rots)
         if [v for v in ctx.violations if v["key"] is None]:
             return
+    for rots in ac.gen_builder_runs(rng, 6000, impl.default_tol):
+        run_check(ctx, impl, rots)
+        if [v for v in ctx.violations if v["key"] is None]:
+            return
 
 
 def replay(ctx, path):
     rec = json.load(open(path))["replay"]
     impl = ac.Impl(ctx.repo)
-    if rec.get("via") == "builder":
+    if rec.get("via") == "builder-run":
+        rots = rots_of_record(rec)
+        print("replay (builder-run):", rots, "->", impl.emit(rots, separate=False))
+        run_check(ctx, impl, rots)
+    elif rec.get("via") == "builder":
         rots = rots_of_record(rec)
         print("replay (builder):", rots, "->", impl.emit(rots))
         builder_check(ctx, impl, rots)
